@@ -160,3 +160,24 @@ def setlike_key(rk):
     """Record key with multiplicities dropped, values kept strict."""
     t, i, attrs = rk
     return (t, i, frozenset(a for a, _n in attrs))
+
+
+def printed(doc):
+    """The printed (prefix:local) form of every name a document shows: identifiers, attribute names, qualified-name values and
+    literal datatypes.  A name whose URI is unchanged but whose printed prefix changed is an observable change of the document
+    (its text exports change, possibly to an undeclared prefix)."""
+    out = []
+    for b in [doc] + _bundles_of(doc):
+        rows = []
+        for rec in b._records:
+            names = [str(rec._identifier)]
+            for a, vs in rec._attributes.items():
+                for v in vs:
+                    names.append(str(a))
+                    if isinstance(v, QualifiedName):
+                        names.append(str(v))
+                    elif isinstance(v, Literal) and v.datatype is not None:
+                        names.append(str(v.datatype))
+            rows.append(tuple(sorted(names)))
+        out.append((str(b._identifier) if b._identifier is not None else None, sorted(rows)))
+    return out
